@@ -167,6 +167,9 @@ func report(o options, w *World, results []*FuncResult, missing []string, start 
 		for _, ob := range r.Obls {
 			total++
 			solverMs += ob.Millis
+			if ob.Millis > 3000 {
+				fmt.Fprintf(os.Stderr, "govc: slow obligation %s: %s %dms\n", ob.Name, ob.Solver, ob.Millis)
+			}
 			byKind[ob.Kind]++
 			ok := false
 			if ob.Expect == "sat" {
@@ -202,6 +205,7 @@ func report(o options, w *World, results []*FuncResult, missing []string, start 
 	replayDir := filepath.Join(o.verif, "replays")
 	os.MkdirAll(replayDir, 0o755)
 	var knownLines []string
+	nKnown := 0
 	for _, m := range missing {
 		// a function under contract that no longer exists: the proof is gone
 		violations++
@@ -222,9 +226,13 @@ func report(o options, w *World, results []*FuncResult, missing []string, start 
 		exit = 1
 	}
 	for _, ob := range failed {
-		if k := kf.match(o.prop, ob.Name); k != nil {
-			knownLines = append(knownLines, fmt.Sprintf("KNOWN-FINDING: property=%s obligation=%s %s", o.prop, ob.Name, k.What))
+		if k := kf.match(o.prop, ob.Name); k != nil && outsideRegion(ob, k, filepath.Join(o.verif, "out", "smt", o.prop), o.timeoutMs) {
+			knownLines = append(knownLines, fmt.Sprintf("KNOWN-FINDING: property=%s obligation=%s input=%s %s", o.prop, ob.Name, k.Input, k.What))
 			k.seen = true
+			nKnown++
+			// the obligation is discharged on the complement of the recorded region
+			discharged++
+			bySolver["restricted-to-complement-of-known-finding"]++
 			continue
 		}
 		violations++
@@ -298,7 +306,7 @@ func report(o options, w *World, results []*FuncResult, missing []string, start 
 	os.MkdirAll(filepath.Join(o.verif, "evidence"), 0o755)
 	writeJSON(filepath.Join(o.verif, "evidence", o.prop+".json"), ev)
 	fmt.Printf("govc: property=%s functions=%d obligations=%d discharged=%d failed=%d known=%d wall=%.1fs (load %.1fs, vcgen %.1fs, solver %.1fs cpu)\n",
-		o.prop, len(funcs), total, discharged, len(failed)-len(knownLines), len(knownLines), wall, loadT.Seconds(), genT.Seconds(), float64(solverMs)/1000)
+		o.prop, len(funcs), total, discharged, len(failed)-nKnown, nKnown, wall, loadT.Seconds(), genT.Seconds(), float64(solverMs)/1000)
 	return exit
 }
 
@@ -367,39 +375,53 @@ func loadExtraEvidence(verif, prop string) map[string]interface{} {
 // ---- known findings
 
 type knownFinding struct {
-	Property, Obligation, What string
-	seen                       bool
+	Property, Obligation, Region, Input, What string
+	seen                                      bool
 }
 type knownFindings struct{ items []*knownFinding }
 
+// A line of KNOWN_FINDINGS.txt:
+//   finding: property=<id> obligation=<name> region=<contract expr over the inputs> input=<failing call> what=<text>
+//   fixed: property=<id> <commit> <what failed>          (documentation only; suppresses nothing)
 func loadKnownFindings(path string) *knownFindings {
 	kf := &knownFindings{}
 	b, err := os.ReadFile(path)
 	if err != nil {
 		return kf
 	}
+	keys := []string{"property=", "obligation=", "region=", "input=", "what="}
 	for _, ln := range strings.Split(string(b), "\n") {
 		ln = strings.TrimSpace(ln)
 		if !strings.HasPrefix(ln, "finding:") {
 			continue
 		}
-		f := &knownFinding{}
 		rest := strings.TrimSpace(strings.TrimPrefix(ln, "finding:"))
-		for _, fld := range []string{"property=", "obligation="} {
-			if i := strings.Index(rest, fld); i >= 0 {
-				v := rest[i+len(fld):]
-				if j := strings.IndexAny(v, " \t"); j >= 0 {
-					v = v[:j]
-				}
-				if fld == "property=" {
-					f.Property = v
-				} else {
-					f.Obligation = v
+		f := &knownFinding{}
+		for i, k := range keys {
+			j := strings.Index(rest, k)
+			if j < 0 {
+				continue
+			}
+			v := rest[j+len(k):]
+			end := len(v)
+			for _, k2 := range keys[i+1:] {
+				if e := strings.Index(v, " "+k2); e >= 0 && e < end {
+					end = e
 				}
 			}
-		}
-		if i := strings.Index(rest, "what="); i >= 0 {
-			f.What = rest[i+5:]
+			v = strings.TrimSpace(v[:end])
+			switch k {
+			case "property=":
+				f.Property = v
+			case "obligation=":
+				f.Obligation = v
+			case "region=":
+				f.Region = v
+			case "input=":
+				f.Input = v
+			case "what=":
+				f.What = v
+			}
 		}
 		kf.items = append(kf.items, f)
 	}
@@ -413,6 +435,39 @@ func (kf *knownFindings) match(prop, obl string) *knownFinding {
 		}
 	}
 	return nil
+}
+
+// outsideRegion re-proves a failed obligation restricted to the complement of
+// the recorded failing region; true means everything outside the known
+// finding is still proved.
+func outsideRegion(ob *Obligation, k *knownFinding, dir string, timeoutMs int) bool {
+	if k.Region == "" || ob.vc == nil {
+		return false
+	}
+	e, err := parseContractExpr(k.Region)
+	if err != nil {
+		return false
+	}
+	vc := ob.vc
+	env := &SpecEnv{vc: vc, vars: map[string]Value{}, old: map[string]Value{}, pkg: vc.fi.Pkg.PkgPath}
+	for n, v := range vc.entry {
+		env.vars[n], env.old[n] = v, v
+	}
+	env.vars[fiRecvName(vc.fi)] = vc.entry["self"]
+	nUns := len(vc.unsupported)
+	region := vc.specBool(e, env)
+	if len(vc.unsupported) > nUns {
+		vc.unsupported = vc.unsupported[:nUns]
+		return false
+	}
+	q := vc.buildQuery(ob, false)
+	q = strings.Replace(q, "(check-sat)", fmt.Sprintf("(assert (not %s))\n(check-sat)", region.S), 1)
+	save := *ob
+	ob.Name += "~outside-known-region"
+	discharge(ob, q, dir, timeoutMs, false)
+	ok := ob.Verdict == "unsat"
+	*ob = save
+	return ok
 }
 
 func readLock(path, prop string) int {
